@@ -13,6 +13,8 @@ import Xsel.Protocol
 import Xsel.SpecStore
 import Xsel.Parse
 import Xsel.Render
+import Xsel.Deriv
+import Generated.Facts
 open Xsel
 open Xsel.Syntax (Tok LTok LexRes ParseRes LexCfg Cfg lex parseToks parseModel parseSpec normCtx lexModel lexSpec cfgModel cfgSpec)
 
@@ -105,6 +107,74 @@ def hugeExp (cs : Chars) : Bool :=
        else false) || go r
   go cs
 
+/-! ### the parse forest of the real parser (Xsel/Walk.lean) -/
+
+def allPunct : List Syntax.Punct :=
+  [.slash, .dslash, .lbrack, .rbrack, .lparen, .rparen, .comma, .at, .coloncolon, .colon, .dot, .dotdot,
+   .star, .pipe, .plus, .minus, .eq, .ne, .lt, .le, .gt, .ge]
+
+/-- a token of the real lexer: its type ID and its characters -/
+def tokOf (ty : String) (text : Chars) : Option Tok :=
+  match ty with
+  | "ncname" => some (.ncname text)
+  | "digits" => some (.digits text)
+  | "singlequote" => if text.length < 2 then none else some (.lit false ((text.drop 1).dropLast))
+  | "doublequote" => if text.length < 2 then none else some (.lit true ((text.drop 1).dropLast))
+  | "variableReference" =>
+    (match text with
+     | '$' :: r => if r.any (fun c => c == ' ' || c == '\t' || c == '\n' || c == '\r') then none else some (.var r)
+     | _ => none)
+  | ty =>
+    match allPunct.find? (fun x => x.term == ty) with
+    | some x => some (.p x)
+    | none => (Syntax.allKw.find? (fun k => k.term == ty)).map Tok.kw
+
+mutual
+partial def decPT : Sexp → Option Walk.PT
+  | .list (.atom "n" :: .atom name :: kids) => (decPTs kids).map (Walk.PT.nt name)
+  | .list [.atom "t", .atom ty, .atom tx] =>
+    match decStr ty, decStr tx with
+    | some t, some x => (tokOf (String.ofList t) x).map Walk.PT.tk
+    | _, _ => none
+  | _ => none
+partial def decPTs : List Sexp → Option Walk.PTs
+  | [] => some .nil
+  | k :: ks =>
+    match decPT k, decPTs ks with
+    | some t, some ts => some (.cons t ts)
+    | _, _ => none
+end
+
+mutual
+partial def ptEq : Walk.PT → Walk.PT → Bool
+  | .nt a ks, .nt b ls => a == b && ptsEq ks ls
+  | .tk a, .tk b => a == b
+  | _, _ => false
+partial def ptsEq : Walk.PTs → Walk.PTs → Bool
+  | .nil, .nil => true
+  | .cons a as, .cons b bs => ptEq a b && ptsEq as bs
+  | _, _ => false
+end
+
+def encWalk : Except Walk.WErr Val → String
+  | .ok v => "ok " ++ encVal v
+  | .error .panic => "panic"
+  | .error (.err _) => "err"
+
+/-- the real forest: what the model of the handler walk computes on it (`walk=`), whether every node is
+    an instance of a production of the regenerated table (`valid=`), and — when the model's own parse of
+    the string has a canonical spelling with exactly these tokens — whether the forest IS the
+    derivation tree of that parse (`tree=`; `-`: other tokens) -/
+def forestAnswer (a : Arena) (en : Env) (s : Nat) (pt : Walk.PT) (m : ParseRes) : String :=
+  let w := encWalk (Walk.run Generated.handlers a en s pt)
+  let valid := if pt.valid Generated.productions then 1 else 0
+  let tree := match m with
+    | .ok e =>
+      let d := Walk.derivTop e
+      if d.yield == pt.yield then (if ptEq d pt then "1" else "0") else "-"
+    | _ => "-"
+  s!" walk={w} valid={valid} tree={tree}"
+
 def findDoc (st : DState) (id : String) : Option Arena := (st.docs.find? (fun p => p.1 == id)).map (·.2)
 
 def handle (st : DState) (line : String) : DState × String :=
@@ -120,6 +190,19 @@ def handle (st : DState) (line : String) : DState × String :=
       -- self::node() (an error on a context that is not a node-set), and so does the model's parser
       let e := normCtx e0
       (st, s!"model={encResult (Model.run a en s e)} spec={encResult (Spec.run a en s e)} speckf={encResult (Spec.runKF a en s e)}")
+    | none, _, _, _ => (st, "bad-doc")
+    | _, none, _, _ => (st, "bad-env")
+    | _, _, none, _ => (st, "bad-start")
+    | _, _, _, none => (st, "bad-expr")
+  | some (.list [.atom "eval", .atom id, env, .atom start, ex, forest]) =>
+    -- the same, with the parse forest the real parser built for the string the harness rendered
+    match findDoc st id, decEnv env, decNat start, decExpr ex with
+    | some a, some en, some s, some e0 =>
+      let e := normCtx e0
+      let fa := match decPT forest with
+        | some pt => forestAnswer a en s pt (.ok e)
+        | none => " walk=unsup valid=- tree=-"
+      (st, s!"model={encResult (Model.run a en s e)} spec={encResult (Spec.run a en s e)} speckf={encResult (Spec.runKF a en s e)}{fa}")
     | none, _, _, _ => (st, "bad-doc")
     | _, none, _, _ => (st, "bad-env")
     | _, _, none, _ => (st, "bad-start")
@@ -145,6 +228,24 @@ def handle (st : DState) (line : String) : DState × String :=
       let sp := parseSpec cs
       let kf := kfReport cs m sp
       (st, s!"model={run m (Model.run a en s)} spec={run sp (Spec.run a en s)} speckf={run sp (Spec.runKF a en s)} kf={kf}")
+    | _, _, _, _ => (st, "bad-evalx")
+  | some (.list [.atom "evalx", .atom id, env, .atom start, xs, forest]) =>
+    -- the same, with the parse forest of the real parser
+    match findDoc st id, decEnv env, decNat start, decStrS xs with
+    | some a, some en, some s, some cs =>
+      let run (r : ParseRes) (f : Expr → Except Err Val) : String :=
+        match r with
+        | .ok e => encResult (f e)
+        | .err => "builderr"
+        | .unsup => "unsup"
+      let m := parseModel cs
+      let sp := parseSpec cs
+      let kf := kfReport cs m sp
+      let fa := match m, decPT forest with
+        | .unsup, _ => ""
+        | _, some pt => forestAnswer a en s pt m
+        | _, none => " walk=unsup valid=- tree=-"
+      (st, s!"model={run m (Model.run a en s)} spec={run sp (Spec.run a en s)} speckf={run sp (Spec.runKF a en s)} kf={kf}{fa}")
     | _, _, _, _ => (st, "bad-evalx")
   | some (.list [.atom "store", .list (.atom "evs" :: evs), ar]) =>
     -- the real tree (dump) against the model builder and the specification of the stream's tree
